@@ -133,6 +133,23 @@ def run(chk):
                     if o == 'setp:P1':
                         loaded = True
             lines.append('api %s new:none;%s' % (kinds4[k % 4], ';'.join(ops)))
+        # caller-supplied memory that is too short for the code: the no_std build must answer with an error, not crash
+        short_lines = []
+        for n in (700, 1500, 2600):
+            p = B.mov(0, 0) + B.alu('add', 0, imm=1) * n + B.EXIT
+            for xlen in (4096, 8192, 1024, 1):
+                for kind in ('raw', 'nodata', 'mbuff', 'fixed'):
+                    short_lines.append(Case(p, fam='short-memory').line(engine='jit', kind=kind) + ' xlen=%d' % xlen)
+        s_no = vlib.harness_run(b_no, short_lines)
+        s_std = vlib.harness_run(b_std, short_lines)
+        for l, x, y in zip(short_lines, s_no, s_std):
+            ok_no = x.startswith('ERR:compile') or x == y
+            if not ok_no:
+                found = True
+                if len(chk.violations) < 12:
+                    chk.violation({'kind': 'counterexample', 'request': l if len(l) <= 60000 else l[:2000] + ' ... ' + l[-200:],
+                                   'no_std_answer': x[:300], 'std_answer': y[:300],
+                                   'meaning': 'with executable memory shorter than the code the no_std build must refuse (error), or answer as the default build when it fits'})
         a_std = vlib.harness_run(b_std, lines)
         a_no = vlib.harness_run(b_no, lines)
         j_std = vlib.harness_run(b_std, jit_lines)
